@@ -136,18 +136,21 @@ JobEndClauses(o, a, c, hh) ==
   \* ---- C19 decline / merge
   \cup (IF kind = "EvalPR" /\ st = "PullRequestDeclined" /\ ~ faulted /\ P # {} THEN
           LET p == CHOOSE x \in P : TRUE
-              openB == {q.id : q \in {x \in Children(b, p) : x.state = "OPEN"}}
+              \* integration data of the present cascade (a delete_branch job may have removed a target since)
+              openB == {q.id : q \in {x \in Children(b, p) : x.state = "OPEN" /\ HasRef(b, x.dst)}}
               declined == {q.id : q \in {x \in Prs(o) : HasPr(b, x.id) /\ PrById(b, x.id).state = "OPEN"
                                                       /\ x.state = "DECLINED"}}
               gone == {r.n : r \in Refs(b)} \ {r.n : r \in Refs(o)}
           IN (IF declined # openB THEN {"C19.decline.prs"} ELSE {})
-             \cup (IF gone # {r.n : r \in WRefs(b, p)} THEN {"C19.decline.refs"} ELSE {})
+             \cup (IF gone # {r.n : r \in {x \in WRefs(b, p) : DstOfW(b, x) # {}}} THEN {"C19.decline.refs"} ELSE {})
         ELSE {})
   \* a declined pull request that was evaluated (and is not held back otherwise) keeps no integration data
   \cup (IF kind = "EvalPR" /\ ~ faulted /\ P # {} /\ st \in {"PullRequestDeclined", "NothingToDo"} THEN
           LET p == CHOOSE x \in P : TRUE
           IN IF HasPr(b, p.id) /\ PrById(b, p.id).state = "DECLINED" /\ p.handled /\ ~ p.wait /\ ~ UnmetDep(o, p)
-                /\ (WRefs(o, p) # {} \/ \E q \in Children(o, p) : q.state = "OPEN" /\ HasRef(b, q.src))
+                /\ HasRef(b, p.dst)
+                /\ ({x \in WRefs(o, p) : DstOfW(b, x) # {}} # {}
+                    \/ \E q \in Children(o, p) : q.state = "OPEN" /\ HasRef(b, q.src) /\ HasRef(b, q.dst))
              THEN {"C19.decline.leftover"} ELSE {}
         ELSE {})
   \cup (IF ~ faulted /\ \E p \in UserPrs(o) : HasPr(b, p.id) /\ PrById(b, p.id).state = "OPEN"
